@@ -181,9 +181,13 @@ func (orderedMap Map[K, V]) equalContent(other any) bool {
 
 // compareMapsByContent makes the maps found by value among the compared values
 // follow Equal too, instead of being compared field by field.
-var compareMapsByContent = cmp.Comparer(func(x, y contentComparable) bool {
+// It only applies to the maps held by value: a pointer to a map has the method too (and
+// would be handed to it as a pointer, nil included), and go-cmp finds Equal on it.
+var compareMapsByContent = cmp.FilterPath(func(path cmp.Path) bool {
+	return path.Last().Type().Kind() == reflect.Struct
+}, cmp.Comparer(func(x, y contentComparable) bool {
 	return x.equalContent(y)
-})
+}))
 
 // Equal tells whether both maps hold the same keys, in the same order, with
 // equal values. The way the maps were built does not matter: a map emptied by
